@@ -391,6 +391,9 @@ func (p *vfPeer) handle(req *vfPkt) *vfPkt {
 		if end > 1<<26 {
 			return p.status(id, vfFxFailure, "too large for the model")
 		}
+		if len(req.Data) == 0 {
+			return p.ok(id) // like pwrite(2): a zero-length write never extends the file
+		}
 		for uint64(len(h.node.Data)) < end {
 			h.node.Data = append(h.node.Data, make([]byte, end-uint64(len(h.node.Data)))...)
 		}
